@@ -76,3 +76,11 @@ CLAIMS["C05"] = {
     "note": "The parser runs on a goroutine the harness owns; quiescence is a sentinel batch whose DoneFunc fires after the previous batch's accounting. Wall-clock event dates (no d: field) are compared with 5 s tolerance.",
     "technique": "property-based testing (rapid): metamorphic relation (whole = fold of lines) + direct model + snapshot-immutability oracle",
 }
+
+CLAIMS["C10"] = {
+    "text": "Random filter lists (0..4 filters; match-metrics / exclude-metrics / match-tags / drop-tags lists of exact, prefix*, !negated and regex: patterns over an alphabet where matches are common; drop-metric / drop-host flags), "
+            "static tag lists with duplicates and droppable tags, and metric maps of all four types with duplicate tags and series that coincide once tags or host are dropped are sent through a real TagHandler; the output is compared in both "
+            "directions with a model written from FILTERING.md plus the reference merge (nothing lost when series coincide), no tag may appear twice, and events must carry tags U static tags de-duplicated. Pattern semantics are checked separately against strings/regexp. Exploration.",
+    "note": "Trusts the literal reading of FILTERING.md encoded in the model (see assumptions in the evidence file).",
+    "technique": "property-based testing (rapid): reference model of the documented filter rules + reference merge",
+}
